@@ -139,7 +139,9 @@ func (a *Application) getProviderEndpoints(ctx context.Context, providerType str
 
 	// If the request has specific requirements (e.g., needs vision support),
 	// apply those filters on top of the provider constraint
-	if pr.profile != nil && len(pr.profile.SupportedBy) > 0 {
+	// also when the path is not one the inspectors know (no SupportedBy) a request that names
+	// a model must still go through model routing
+	if pr.profile != nil && (len(pr.profile.SupportedBy) > 0 || pr.profile.ModelName != "") {
 		providerEndpoints = a.filterEndpointsByProfile(providerEndpoints, pr.profile, pr.requestLogger)
 	}
 
